@@ -355,5 +355,30 @@ PROPS["C11"] = dict(
     ],
 )
 
+PROPS["C17"] = dict(
+    title="Every scheduled handler runs exactly once: posts, timers, I/O waits, pool jobs",
+    level="other",
+    explanation=("No thread is run. impl::thread_pool keeps all shared state behind one mutex, so its behaviours are the orders of its critical sections; "
+                 "these are explored symbolically as operation sequences (post / cancel / 'a worker runs until it would block'), with pthread mutex and "
+                 "std::condition_variable replaced by ghost stubs that also check lock balance and that jobs run with the mutex released. The solver (CBMC/SAT) "
+                 "decides every assertion for all sequences of K operations and all choices of which jobs throw. Real thread timing, the event loop "
+                 "(io_service posts, timers, I/O readiness) and the pthread primitives themselves are not covered."),
+    trusted_base=COMMON_TB + ["pthread_mutex_lock/unlock and std::condition_variable are ghost stubs (models/stubs_c17.c); wait() = 'nothing further happens, the pool is stopped'",
+                              "booster::log is disabled (should_be_logged == false)"],
+    assumptions=["behaviours of the pool = interleavings of its critical sections (all shared state is accessed under mutex_); this is argued, not checked, in DESIGN.md"],
+    outside="booster::aio event loop: posted handlers, timers, descriptor readiness, cancellation codes; real schedules; thread creation/join",
+    obligations=[
+        dict(id="C17.b", harness="C17_thread_pool.cpp", entry="h_c17b_exactly_once", ctors=False, clang_flags=["-fno-inline"], nvec=0, replay="generated",
+             roots=["verif_cond_wait"], models=["stubs_c17.c"],
+             desc="impl::thread_pool post/cancel/worker: every job runs at most once; a successfully cancelled job never runs; cancel succeeds iff the job is still queued; when a worker blocks every queued job has run exactly once even if jobs throw; jobs run with the mutex released; the mutex is balanced",
+             tiers=T(quick=dict(defs=dict(VERIF_K=3), unwind=6, unwindset={"verif_memset.0": 70, "verif_memcpy.0": 40, "X_strlen.0": 40}, timeout=1200, bounds="every sequence of 3 operations from {post, cancel(any job), worker-drain}; which jobs throw is symbolic"),
+                     thorough=dict(defs=dict(VERIF_K=4), unwind=7, unwindset={"verif_memset.0": 70, "verif_memcpy.0": 40, "X_strlen.0": 40}, timeout=3000, bounds="every sequence of 4 operations"))),
+        dict(id="C17.c", harness="C17_thread_pool.cpp", entry="h_c17c_stop", ctors=False, clang_flags=["-fno-inline"], nvec=0, replay="generated",
+             roots=["verif_cond_wait"], models=["stubs_c17.c"],
+             desc="impl::thread_pool: distinct job ids; a stopped pool runs nothing; a running pool runs each queued job exactly once and none twice",
+             tiers=T(quick=dict(defs=dict(VERIF_K=2), unwind=6, unwindset={"verif_memset.0": 70, "verif_memcpy.0": 40, "X_strlen.0": 40}, timeout=900, bounds="2 jobs (throwing or not), stop flag symbolic, two worker runs"))),
+    ],
+)
+
 # properties for which no obligation can be built with this technique (reason required)
 NOT_APPLICABLE = {}
